@@ -37,10 +37,18 @@ def _mc_one(args):
         common.cleanup(d)
 
 
-def build_trace(dassh, n, nd, dims, se2, wire, tid_cfg, order='asc'):
+CORRS = [('CTD', 'CTD', 'CTD'), ('NOV', 'SE2', 'MIT'), ('UCTD', 'UCTD', 'UCTD'),
+         ('NOV', 'MIT', 'MIT'), ('ENG', 'NOV', 'MIT'), ('REH', 'SE2', 'MIT')]
+
+
+def build_trace(dassh, n, nd, dims, se2, wire, tid_cfg, order='asc',
+                corr=None):
     try:
+        ff, fs, mix = corr or CORRS[0]
+        if dims[2] == 0.0:
+            ff, fs, mix = 'CTD', 'CTD', 'CTD'    # bare rods: CT family only
         rr = bs.make_region(dassh, n, dims, nd, se2=se2, wire_dir=wire,
-                            order=order)
+                            order=order, ff=ff, fs=fs, mix=mix)
         ev, proj = bs.bundle_events(rr)
         # the donor column the solver actually reads for this wire direction
         for o in ev:
@@ -83,10 +91,14 @@ def run(tier, res, replay=None):
                 se2 = (k + n + nd) % 2 == 1
                 wire = 'clockwise' if (n + k) % 2 == 0 else 'counterclockwise'
                 dims = bs.random_dims(rng, n, nd, bare=(k == 2 and nd == 1))
+                # the correlation options change nothing in the geometry
+                corr = CORRS[(n + 2 * nd + k) % len(CORRS)]
                 tr = build_trace(dassh, n, nd, dims, se2, wire,
                                  {'se2': int(se2), 'wire': wire,
+                                  'corr': '/'.join(corr),
                                   'dims': [float(f'{x:.9g}') for x in dims[:4]]
-                                  + [[float(f'{x:.9g}') for x in dims[4]]]})
+                                  + [[float(f'{x:.9g}') for x in dims[4]]]},
+                                 corr=corr)
                 traces.append(tr)
                 res.add_eval()
                 res.distinct((n, nd, se2, wire, k))
